@@ -56,12 +56,12 @@ Fixpoint first_diff (i : N) (a b : list N) : N :=
   | _, _ => i
   end.
 
-Definition case := (copts * list csrc * list cev * string * list N)%type.
+Definition case := (copts * list csrc * list cev * list string * list N)%type.
 
 Definition model_bad (cs : list case) : list (N * N) :=
   flat_map (fun ic => let '(i, (o, ss, es, out, nums)) := ic in
                       let st := model_run o ss es in
-                      if negb (beqb (enc (k_stdout st)) (unhex out)) then [(i, 1)]
+                      if negb (beqb (enc (k_stdout st)) (flat_map unhex out)) then [(i, 1)]
                       else match first_diff 2 (nums_of (k_total st)) nums with
                            | 0 => []
                            | c => [(i, c)]
